@@ -161,6 +161,44 @@ func runCacheCase(cs cCase) []cRes {
 					during = nil
 					f()
 				}
+			case "prune_age_get", "prune_count_get":
+				// a Get of the key lands while the prune's cleanup of an entry runs; it may have to wait for the prune (the
+				// cleanup must not wait for it)
+				type gres struct {
+					v   int
+					err error
+				}
+				done := make(chan gres, 1)
+				during = func() {
+					go func() {
+						v, err := c.Get(ev.K)
+						done <- gres{v, err}
+					}()
+					select {
+					case g := <-done:
+						done <- g
+					case <-time.After(20 * time.Millisecond):
+					}
+				}
+				if ev.Op == "prune_age_get" {
+					c.VerifPruneAge()
+				} else {
+					c.VerifPruneCount()
+				}
+				if during != nil {
+					during = nil // no callback ran: no Get was sent
+				} else {
+					select {
+					case g := <-done:
+						if g.err == nil {
+							r.Val = &g.v
+						} else {
+							r.Err = true
+						}
+					case <-time.After(3 * time.Second):
+						r.Panic = "Get sent during a prune's cleanup did not return"
+					}
+				}
 			case "prune_age":
 				c.VerifPruneAge()
 			case "prune_count":
